@@ -813,7 +813,20 @@ class SymBytes:
         return NotImplemented
 
     def __hash__(self):
-        raise EngineLimit("hash of symbolic bytes")
+        # symbolic bytes as a dict / set key: first fork on "equal to a key hashed earlier on this path" (same length), then enumerate
+        c = _c()
+        terms = [byte_term(x) for x in self.items]
+        if all(z3.is_bv_value(z3.simplify(t)) for t in terms):
+            return hash(builtins.bytes(z3.simplify(t).as_long() for t in terms))
+        seen = c.__dict__.setdefault("hashed_bytes", [])
+        for pv in seen:
+            if builtins.len(pv) == builtins.len(terms) and c.fork(z3.And([t == v for t, v in zip(terms, pv)] + [z3.BoolVal(True)])):
+                return hash(pv)
+        if builtins.len(terms) > 4:
+            raise EngineLimit("hash of more than 4 symbolic bytes")
+        pv = builtins.bytes(c.pick(z3.ZeroExt(W - 8, t)) for t in terms)
+        seen.append(pv)
+        return hash(pv)
 
     def __repr__(self):
         return f"<symbytes {builtins.len(self.items)}>"
